@@ -160,7 +160,7 @@ Proof. exact circle_lip2. Qed.
    Each theorem below breaks when the Go function it is named after changes what it computes. *)
 From Coq Require Import ZArith List.
 Import ListNotations.
-From Sdfx Require Num.Ops Geo.Vec Geo.Box Render.Interp Render.Octree Render.Sample Render.Lattice Render.MS Generated.RenderExpr Render.GenEqRender Render.GenEqMC.
+From Sdfx Require Num.Ops Geo.Vec Geo.Box Render.Interp Render.Octree Render.Sample Render.Lattice Render.MS Render.RgLib Generated.RenderExpr Render.GenEqRender Render.GenEqMC Render.GenEqOct.
 Import Num.Ops Geo.Vec.
 
 Theorem C07_TRANSL_dcache3_isEmpty : forall (O : Ops) (origin : V3 O) (res : T O) (fv : Lattice.pt -> T O) (n m : nat) (v : Lattice.pt),
@@ -208,3 +208,27 @@ Theorem C07_TRANSL_msToLines : forall (O : Ops) (p0 p1 p2 p3 : V2 O) (v0 v1 v2 v
     Interp.ms_to_lines (Octree.sel4 p0 p1 p2 p3) (Octree.sel4 v0 v1 v2 v3) x.
 Proof. exact (@GenEqRender.msToLines_eq). Qed.
 Print Assumptions C07_TRANSL_msToLines.
+
+(* processCube / processSquare, translated as the list of events of one activation (RgOut = the value
+   written, RgCall = the arguments of a recursive call): the model recursion of the theorems above is
+   the interpretation of the generated step, with isEmpty the generated isEmpty over the generated
+   hdiag table and dc.evaluate the function (point of the index, field value at the index) *)
+Theorem C07_TRANSL_octree_step : forall (O : Ops) (origin : V3 O) (res : T O) (fv : Lattice.pt -> T O) (n m : nat) (v : Lattice.pt),
+    (S m < n)%nat ->
+    Octree.octree origin res fv m v =
+    RgLib.run_trace (fun a : Lattice.pt * Z => Octree.octree origin res fv (pred m) (fst a))
+      (RenderExpr.rg_render_dcache3_processCube
+         (fun a => RenderExpr.rg_render_dcache3_isEmpty (Octree.hdiag3_table res n) (fun vi => (Octree.oct_point origin res vi, fv vi)) (fst a) (snd a))
+         (fun vi => (Octree.oct_point origin res vi, fv vi)) v (Z.of_nat (S m))).
+Proof. exact (@GenEqOct.octree_step). Qed.
+Print Assumptions C07_TRANSL_octree_step.
+
+Theorem C07_TRANSL_quadtree_step : forall (O : Ops) (origin : V2 O) (res : T O) (fv : MS.pt2 -> T O) (n m : nat) (v : MS.pt2),
+    (S m < n)%nat ->
+    Octree.quadtree origin res fv m v =
+    RgLib.run_trace (fun a : MS.pt2 * Z => Octree.quadtree origin res fv (pred m) (fst a))
+      (RenderExpr.rg_render_dcache2_processSquare
+         (fun a => RenderExpr.rg_render_dcache2_isEmpty (Octree.hdiag2_table res n) (fun vi => (Octree.quad_point origin res vi, fv vi)) (fst a) (snd a))
+         (fun vi => (Octree.quad_point origin res vi, fv vi)) v (Z.of_nat (S m))).
+Proof. exact (@GenEqOct.quadtree_step). Qed.
+Print Assumptions C07_TRANSL_quadtree_step.
